@@ -10,4 +10,5 @@ Separate Extraction
   stsc_decode stsc_add_entries stsc_chunk_nr_from_sample_nr stsc_get_chunk stsc_get_containing_chunks
   stsc_get_sample_description_id stsc_get_sample_description_id_pinned trak_get_sample_data trak_get_sample_data_pinned trak_get_ranges trak_chunk_offset
   consistent deltas_positive
-  ctts_empty ctts_run ctts_table stsc_empty stsc_call stsc_call_res stsc_run stsc_table stsc_of_table.
+  ctts_empty ctts_run ctts_table stsc_empty stsc_call stsc_call_res stsc_run stsc_table stsc_of_table
+  nz sdis stsc_call_ok rows_ok raw_ok ctts_call_ok nchunks.
